@@ -24,8 +24,9 @@ def setup(stub_buffers=True):
     import pulser.sampler.sampler as sp
 
     import pulser.sequence.helpers._seq_str as ss
+    import pulser.devices._device_datacls as dd
 
-    facade.install(extra_np=(wm, tr, co), extra_float=(ss, wm))
+    facade.install(extra_np=(wm, tr, co), extra_float=(ss, wm, dd), extra_int=(dd,))
     stubs.init()
     if stub_buffers:
         stubs.install_buffer_stub()
